@@ -145,6 +145,33 @@ func (fa *Facts) infeasible(from, to *ssa.BasicBlock, H map[string]bool) bool {
 			return true
 		}
 	}
+	// branch on a phi: facts implied by every way of taking this edge
+	if len(from.Instrs) > 0 {
+		if iff, ok := from.Instrs[len(from.Instrs)-1].(*ssa.If); ok && len(from.Succs) == 2 && from.Succs[0] != from.Succs[1] {
+			if hasPhiOperand(iff.Cond) {
+				ff := fa.Analyze(from.Parent())
+				for a := range ff.phiCondFacts(iff.Cond, from.Succs[0] == to) {
+					if contradicts(canonAtom(a), H) {
+						return true
+					}
+				}
+			}
+		}
+	}
+	return false
+}
+
+func hasPhiOperand(v ssa.Value) bool {
+	switch x := v.(type) {
+	case *ssa.Phi:
+		return true
+	case *ssa.UnOp:
+		return hasPhiOperand(x.X)
+	case *ssa.BinOp:
+		_, a := x.X.(*ssa.Phi)
+		_, b := x.Y.(*ssa.Phi)
+		return a || b
+	}
 	return false
 }
 
